@@ -416,6 +416,27 @@ fn check_pair<G: Grp>(a: &PV, b: &PV, via: &PV, mode: u8) -> Outcome {
             let shifted = PSrc::Rep(enc, (mode >> 3) | 1);
             (build_src(&shifted), ra.clone())
         }
+        0 if is_weierstrass(g) && (mode >> 3) % 3 != 0 && !r.is_neutral(&ra) => {
+            // a different point that shares one affine coordinate with a: (x, -y), or - on a curve with j = 0 (secp256k1),
+            // where x -> beta*x with beta^3 = 1 is an automorphism - (beta*x, y): equality tests that compare one
+            // coordinate only cannot tell them apart
+            let w = if g == 2 { &refs().p256 } else { &refs().secp256k1 };
+            let Pt::A(x, y) = ra.clone() else { unreachable!() };
+            let other = if (mode >> 3) % 3 == 1 {
+                Pt::A(x, pf::neg(&y, &w.p))
+            } else {
+                // beta = (-1 + sqrt(-3))/2 when -3 is a square mod p and the curve has a = 0
+                match (w.a.is_zero(), pf::sqrt_any(&(&w.p - 3u32), &w.p)) {
+                    (true, Some(s3)) => {
+                        let beta = pf::mul(&pf::sub(&s3, &BigUint::one(), &w.p), &pf::inv(&BigUint::from(2u32), &w.p), &w.p);
+                        Pt::A(pf::mul(&x, &beta, &w.p), y)
+                    }
+                    _ => Pt::A(x, pf::neg(&y, &w.p)),
+                }
+            };
+            acc.tag("other_point_sharing_one_coordinate");
+            (build_src(&PSrc::Enc(r.encode(&other))), other)
+        }
         _ => (build_pv(b), ref_pv(g, b)),
     };
     let independent = !matches!(mode % 8, 1..=6) && !(mode % 8 == 7 && is_quotient(g) && a.chain.is_empty());
